@@ -370,9 +370,11 @@ example :
     evalT (Γ0 .single) ρ0 t e = some (.obj [(ka, .num (.int 3)), (kb, .arr [.arr [.str kx], .null]),
       (kx, .obj [(ka, .num (.int 1))])]) := ⟨by decide, by decide, rfl⟩
 
-/-- `x = split REF` (PARTIAL: `noHole` between the type of the whole collection
-and `t[]` / `map<t>`): the collection is resolved without error and every element
-handed to a fork conforms to the parameter type. -/
+/-- `x = split REF` (PARTIAL: `noHole` between the ELEMENT type of the collection
+and `t` – weaker than `noHole` between the whole collection and `t[]` / `map<t>`,
+which for a typed map would also ask for legal keys although the keys are not
+delivered; `Proofs.TypingRun.refRT_tmap_elems`): the collection is resolved
+without error and every element handed to a fork conforms to the parameter type. -/
 theorem split_ref_sound_rt_partial (Γ : Env) (ρ : Store) (t : Ty) (e : Exp)
     (hρ : StoreOk Γ ρ) (ht : t.wf = true) (he : ∃ id p, e = .self id p ∨ e = .call id p)
     (hv : validBind Γ t (.split e) = true) (hh : bindHoleFreeT Γ t (.split e) = true) :
@@ -1287,10 +1289,16 @@ example :
 
 /-! ### 12. THE HEADLINE AS ONE THEOREM: whole programs -/
 
-/-- PARTIAL (hypotheses inside `progOk`: `noHole` at every reference – the C17
-holes F9 / F10 –, and no MAP call of a callable with file-typed outputs – fork
-keys would have to be legal file names, audit M3; both are decidable and are
-evaluated on every accepted generated program, driver op `C07.prog`).
+/-- PARTIAL (hypotheses inside `progOk`, all decidable and evaluated on every
+accepted generated program by driver op `C07.prog`:
+  * `noHole` at every reference – the C17 holes F9 / F10; for a `split`
+    reference only between the ELEMENT types (`bindHoleFreeT`: the keys of a typed
+    map that is split over are not delivered, their legality is not needed);
+  * a MAP call of a callable with file-typed outputs (the fork keys become keys of
+    a `map<struct with files>` and must be legal file names, audit M3) has
+    STATICALLY KNOWN LEGAL KEYS: every split argument is a map literal with
+    legal keys (`staticLegalKeys`; lemma `fork_keys_static`). Map calls over
+    run-time maps of callables without file-typed outputs carry no condition.)
 
 For every program `P` (pipeline definitions) with top-level call `top` that the
 compiler's rules accept – `validTop`, `validPipelineU` of every definition,
@@ -1301,15 +1309,23 @@ IF every invocation of every STAGE the program calls returns outputs that
 conform to the stage's declared output types (`OracleOk` – the only assumption
 about the outside world),
 
-THEN the CHECKED run of the whole program succeeds: `run` resolves every binding
-of every call of every pipeline, in every fork of every mapped call, at every
-nesting level, with the faithful run-time model (`deliveredT` = `Path` with the
-destination peeled, leaf-wise `FilterJson`; literals element-wise), FAILS if a
-resolution fails or if a delivered value does not validate against the declared
-type of the parameter it is bound to (`argLists`), resolves every pipeline's
-return bindings at the declared output types – and the top-level outputs are a
-valid value of the declared output struct (`t`, `t[]` or `map<t>` for a mapped
-top-level call).
+THEN the CHECKED run of the whole program DOES NOT FAIL (`Res.fail`): `run`
+evaluates the `disabled` modifier of every call (`disabledRT`; a disabled call is
+NOT invoked and delivers null outputs – `disabled_call_delivers_null`), resolves
+every binding of every enabled call of every pipeline, in every fork of every
+mapped call, at every nesting level, with the faithful run-time model
+(`deliveredT` = `Path` with the destination peeled, leaf-wise `FilterJson`;
+literals element-wise), FAILS if a resolution fails or if a delivered value
+does not validate against the declared type of the parameter it is bound to
+(`argLists`), resolves every pipeline's return bindings at the declared output
+types – and EITHER the top-level outputs are a valid value of the declared
+output struct (`t`, `t[]` or `map<t>` for a mapped top-level call), OR the run
+stopped where the real run time stops BY DESIGN: at a call whose `disabled`
+modifier resolved to NULL (`Res.nullDisabled`; `Fork.disabled`: "disabled is
+bound to a null value, which is not permitted"). Null conforms to `bool` as to
+every type, so no static check and no assumption on the stages can exclude
+this (`disabled_null_witness`); programs without `disabled` modifiers never stop
+(`program_sound_no_disabled_partial`).
 
 Proof: induction over the calls of a body in dependency order
 (`stepCall_sound`, `runCalls_sound`: the store invariant `StoreOk` is
@@ -1317,11 +1333,59 @@ established call by call, not assumed) inside an induction over the nesting
 depth (`run_sound`). -/
 theorem program_sound_partial (P : Prog) (O : Oracle) (top : CallStm) (n : Nat)
     (hO : OracleOk P top O) (hP : progOk P top = true) (hn : fits P n top.callee = true) :
+    ∃ sh, checkStm emptyEnv top = some sh ∧
+      (runProgram P O n top = .nullDisabled ∨
+       ∃ out, runProgram P O n top =
+          .ok ({ self := [], calls := [(top.id, top.sig sh)] }, { self := [], calls := [(top.id, out)] }) ∧
+        valid (top.sig sh).whole out = true) :=
+  runProgram_sound P O top n hO hP hn
+
+/-- the statement of rounds 5–6, for programs without `disabled` modifiers
+(`noDisabled`, decidable): the checked run SUCCEEDS and the top-level outputs
+conform (same PARTIAL hypotheses as `program_sound_partial`) -/
+theorem program_sound_no_disabled_partial (P : Prog) (O : Oracle) (top : CallStm) (n : Nat)
+    (hO : OracleOk P top O) (hP : progOk P top = true) (hn : fits P n top.callee = true)
+    (hd : noDisabled P top = true) :
     ∃ sh out, checkStm emptyEnv top = some sh ∧
       runProgram P O n top =
-        some ({ self := [], calls := [(top.id, top.sig sh)] }, { self := [], calls := [(top.id, out)] }) ∧
-      valid (top.sig sh).whole out = true :=
-  runProgram_sound P O top n hO hP hn
+        .ok ({ self := [], calls := [(top.id, top.sig sh)] }, { self := [], calls := [(top.id, out)] }) ∧
+      valid (top.sig sh).whole out = true := by
+  obtain ⟨sh, hchk, h⟩ := runProgram_sound P O top n hO hP hn
+  rcases h with hnd | ⟨out, hr, hv⟩
+  · exact absurd hnd (runProgram_nd P O top n hd)
+  · exact ⟨sh, out, hchk, hr, hv⟩
+
+/-- the `disabled` modifier of an accepted call never FAILS to evaluate at run
+time: it resolves to a boolean – or to null, where the run time stops by design.
+Part of `program_sound_partial`. -/
+theorem disabled_evaluates (Γ : Env) (ρ : Store) (hρ : StoreOk Γ ρ) (c : CallStm) (sh : Option SplitShape)
+    (hchk : checkStm Γ c = some sh)
+    (hw : ∀ e, usingDisabled c.mods.usings = some e → e.wf = true) :
+    disabledRT Γ ρ c.mods = .nullDisabled ∨ ∃ b, disabledRT Γ ρ c.mods = .ok b := by
+  have hm : modsOk Γ c.callee c.binds c.wild c.mods = true := by
+    by_cases hm : modsOk Γ c.callee c.binds c.wild c.mods = true
+    · exact hm
+    · simp [checkStm, hm] at hchk
+  exact disabledRT_sound Γ ρ hρ c.callee c.binds c.wild c.mods hm hw
+
+/-- a disabled call is not invoked (the runner `rc` does not occur on the right)
+and its outputs are null – whatever the bindings of the call are -/
+theorem disabled_call_delivers_null (rc : Runner) (Γ : Env) (ρ : Store) (c : CallStm) (sh : Option SplitShape)
+    (bs : List (Bytes × Bind)) (hchk : checkStm Γ c = some sh)
+    (hab : allBinds Γ c.callee.params c.binds c.wild = some bs) (hd : disabledRT Γ ρ c.mods = .ok true) :
+    stepCall rc Γ ρ c =
+      .ok ({ Γ with calls := Γ.calls ++ [(c.id, c.sig sh)] }, { ρ with calls := ρ.calls ++ [(c.id, .null)] }) := by
+  simp [stepCall, hchk, hab, hd]
+
+/-- the static shape of a map call and its run-time fork keys (audit M3): if every
+split argument of the call is a map literal with `n` legal keys
+(`staticLegalKeys`), then the key of every fork the run creates (`splitKeys`,
+`nforks` of the evaluated argument lists) is a legal file name -/
+theorem fork_keys_static (Γ : Env) (ρ : Store) (bs : List (Bytes × Bind)) (n : Nat)
+    (params : List (Bytes × Ty)) (args : List (Bytes × Bool × List J))
+    (hk : staticLegalKeys n params bs = true) (ha : argLists Γ ρ bs params = some args) :
+    ∀ i, i < nforks args → legalName ((splitKeys Γ ρ params bs).getD i []) = true :=
+  fork_keys_legal Γ ρ bs n params args hk ha
 
 /-- what "the checked run succeeds" means for one call: every value in the
 argument lists has been validated against its parameter's declared type
@@ -1389,7 +1453,71 @@ example :
     progOk prog3 top3 = true ∧ fits prog3 4 top3.callee = true ∧ fits prog3 3 top3.callee = false ∧
     valid (.struct cP stP.outs) (oracle3 cP []) = true ∧
     (runProgram prog3 oracle3 4 top3).map (fun s => s.2.calls) =
-      some [(nTop, .obj [(kb, .arr [.obj [(kx, .num (.int 5))], .obj [(kx, .num (.int 5))]])])] :=
-  ⟨by decide, by decide, by decide, by decide, rfl⟩
+      .ok [(nTop, .obj [(kb, .arr [.obj [(kx, .num (.int 5))], .obj [(kx, .num (.int 5))]])])] ∧
+    noDisabled prog3 top3 = true :=
+  ⟨by decide, by decide, by decide, by decide, rfl, by decide⟩
+
+/-! a program with a `disabled` modifier and a map call with statically known
+keys of a stage with a FILE output:
+`pipeline Q(in bool d, out map<file> r) { map call F(a = split {"a": 1, "b": 2}) using (disabled = self.d)  return (r = F.f) }` -/
+private abbrev nQ : Bytes := [0x51]
+private abbrev nF : Bytes := [0x46]
+private abbrev kd : Bytes := [0x64]
+private abbrev kf : Bytes := [0x66]
+private abbrev kr : Bytes := [0x72]
+private abbrev stF : Callee := { name := nF, isStage := true, params := [(ka, .base .int)], outs := .cons kf (.base .file) .nil }
+private abbrev litKeys (k2 : Bytes) : Exp := .map false (.cons ka (.int 1) (.cons k2 (.int 2) .nil))
+private abbrev pQ (k2 : Bytes) : Pipeline :=
+  { name := nQ, ins := [(kd, .base .bool)], outs := .cons kr (.tmap (.base .file)) .nil,
+    calls := [{ id := nF, callee := stF, binds := [(ka, .split (litKeys k2))], wild := none, mods := { kwLocal := false, kwPreflight := false, kwVolatile := false, usings := [.dis (.self kd [])] } }],
+    ret := [(kr, .plain (.call nF [kf]))], retWild := none, retain := [] }
+private abbrev topQ (k2 : Bytes) (d : Exp) : CallStm := { id := nQ, callee := (pQ k2).callee, binds := [(kd, .plain d)], wild := none, mods := noMods }
+private abbrev oracleF : Oracle := fun _ _ => .obj [(kf, .str kx)]
+/-- the key `a/b` -/
+private abbrev kSlash : Bytes := [0x61, 0x2F, 0x62]
+
+/-- non-vacuity of the round-7 extensions of `program_sound_partial`: with
+`d = false` the two forks run (`r = {"a": "x", "b": "x"}`, a valid `map<file>`
+because the literal keys are legal names); with `d = true` the stage is not
+invoked and `r = null`; and the same program
+with the literal key `a/b` is accepted by the compiler's rules but is NOT `progOk`
+(the hypothesis that remains of M3) – its run delivers an invalid `map<file>`. -/
+example :
+    progOk { pipes := [pQ kb] } (topQ kb (.bool false)) = true ∧
+    progOk { pipes := [pQ kb] } (topQ kb (.bool true)) = true ∧
+    (runProgram { pipes := [pQ kb] } oracleF 2 (topQ kb (.bool false))).map (fun s => s.2.calls) =
+      .ok [(nQ, .obj [(kr, .obj [(ka, .str kx), (kb, .str kx)])])] ∧
+    (runProgram { pipes := [pQ kb] } oracleF 2 (topQ kb (.bool true))).map (fun s => s.2.calls) =
+      .ok [(nQ, .obj [(kr, .null)])] ∧
+    validPipelineU (pQ kSlash) = true ∧ validTop (topQ kSlash (.bool false)) = true ∧
+    progOk { pipes := [pQ kSlash] } (topQ kSlash (.bool false)) = false ∧
+    (runProgram { pipes := [pQ kSlash] } oracleF 2 (topQ kSlash (.bool false))).map (fun s => s.2.calls) =
+      .ok [(nQ, .obj [(kr, .obj [(ka, .str kx), (kSlash, .str kx)])])] ∧
+    valid (.struct nQ (pQ kSlash).outs) (.obj [(kr, .obj [(ka, .str kx), (kSlash, .str kx)])]) = false :=
+  ⟨by decide, by decide, rfl, rfl, by decide, by decide, by decide, rfl, by decide⟩
+
+/-- the `nullDisabled` alternative of `program_sound_partial` is real: the
+program satisfies every hypothesis, `d = null` conforms to `bool`, and the
+run stops at the call `F` (the real run time: "disabled is bound to a null
+value, which is not permitted"; a null known at invocation is refused by
+`resolveDisableExp` – replayed by the harness, `c07DisabledRuntime`) -/
+theorem disabled_null_witness :
+    progOk { pipes := [pQ kb] } (topQ kb .null) = true ∧ fits { pipes := [pQ kb] } 2 (topQ kb .null).callee = true ∧
+    valid (.base .bool) .null = true ∧
+    (runProgram { pipes := [pQ kb] } oracleF 2 (topQ kb .null)).map (fun s => s.2.calls) = .nullDisabled :=
+  ⟨by decide, by decide, by decide, rfl⟩
+
+/-- the weakened split hypothesis: splitting over a `map<string>` INPUT into a
+`file` parameter needs no legal keys (the keys are not delivered) – the hypothesis
+`bindHoleFreeT` holds, although `noHole (map<file>) (map<string>)` (what rounds
+5–6 required) does not -/
+example :
+    let Γ : Env := { self := [(km, .tmap (.base .string))], calls := [] }
+    validBind Γ (.base .file) (.split (.self km [])) = true ∧
+    bindHoleFreeT Γ (.base .file) (.split (.self km [])) = true ∧
+    noHole (.tmap (.base .file)) (.tmap (.base .string)) = false ∧
+    deliveredT Γ { self := [(km, .obj [(kSlash, .str kx)])], calls := [] } (.base .file) (.split (.self km [])) =
+      some [.str kx] :=
+  ⟨by decide, by decide, by decide, rfl⟩
 
 end Props.C07
